@@ -122,6 +122,23 @@ func c16Do(shape int, v any, vk int, bind func(dest any) error, ref bool) c16Out
 	case 6: // typed nil pointer
 		err := call((*c16T)(nil))
 		return c16Outcome{err != nil, nil}
+	case 13: // typed nil pointer of the value's OWN type
+		var err error
+		switch vk {
+		case 0, 7:
+			err = call((*map[string]any)(nil))
+		case 2:
+			err = call((*int)(nil))
+		case 3:
+			err = call((*string)(nil))
+		case 6:
+			err = call((*[]any)(nil))
+		case 4:
+			err = call((**c16T)(nil))
+		default:
+			err = call((*c16T)(nil))
+		}
+		return c16Outcome{err != nil, nil}
 	case 7: // non-pointer destination
 		err := call(c16T{})
 		return c16Outcome{err != nil, nil}
@@ -147,14 +164,14 @@ func c16Do(shape int, v any, vk int, bind func(dest any) error, ref bool) c16Out
 	}
 }
 
-const c16Shapes = 13
+const c16Shapes = 14
 
 func c16Check(v any, vk, shape int, got c16Outcome, panicked bool) {
 	vAssert(!panicked, "bind-never-panics")
 	if panicked {
 		return
 	}
-	if shape >= 6 && shape <= 8 {
+	if (shape >= 6 && shape <= 8) || shape == 13 {
 		vCover("bad-destination")
 		vAssert(got.isErr, "nil-or-non-pointer-destination-is-an-error")
 		return
